@@ -138,3 +138,36 @@ Definition parse_ingress (s : bytes) : option url :=
     else if negb (is_valid_scheme u) then None
     else Some (mkurl (u_scheme u) (u_opaque u) (u_user u) (u_host u) (trim_right_slash (u_path u)) (u_rawpath u)
                      (u_omithost u) (u_forcequery u) (u_rawquery u) (u_fragment u) (u_rawfragment u))).
+
+(** * SSOProxy.Login / SSOProxy.Logout (pkg/handler/handler_sso_proxy.go): the redirect handed to the SSO server.
+    The request is reduced to its Host, its URL path and the [redirect] parameter; [ings] are the parsed configured
+    ingresses, [fallback] is ingresses.Single() as chosen when the handler was built. X-Forwarded-Host is not modelled
+    (the driver does not send it). *)
+(* func hasPathPrefix(path, prefix string) bool *)
+Definition spx_has_path_prefix (path pfx : bytes) : bool := beq path pfx || has_prefix path (pfx ++ [47]).
+
+(* func (i *Ingresses) MatchingPath(r) string : the longest configured ingress path (of ANY host) that prefixes the request path *)
+Definition spx_matching_path (ings : list url) (reqpath : bytes) : bytes :=
+  fold_left (fun res ing =>
+               let p := u_path ing in
+               if negb (is_empty p) && spx_has_path_prefix reqpath p && Nat.ltb (length res) (length p) then p else res)
+            ings [].
+
+(* func (i *Ingresses) MatchingIngress(r) (Ingress, bool) *)
+Definition spx_matching_ingress (ings : list url) (reqhost reqpath : bytes) : option url :=
+  let mp := spx_matching_path ings reqpath in
+  find (fun ing => beq (u_host ing) reqhost && beq (u_path ing) mp) ings.
+
+(* the base redirect of SSOProxyRedirect.Canonical: MatchingIngress(r), else the fallback *)
+Definition spx_base_ingress (ings : list url) (fallback : url) (reqhost reqpath : bytes) : url :=
+  match spx_matching_ingress ings reqhost reqpath with Some i => i | None => fallback end.
+
+(* SSOProxy.Login: canonicalRedirect := s.Redirect.Canonical(r); url.Login(target, canonicalRedirect) sets the
+   parameter when it is non-empty *)
+Definition spx_login_handover (ings : list url) (fallback : url) (reqhost reqpath param : bytes) : option bytes :=
+  let c := ssoproxy_canonical (map u_host ings) (spx_base_ingress ings fallback reqhost reqpath) fallback param in
+  if is_empty c then None else Some c.
+
+(* SSOProxy.Logout: only when the request carries a non-empty redirect parameter *)
+Definition spx_logout_handover (ings : list url) (fallback : url) (reqhost reqpath param : bytes) : option bytes :=
+  if is_empty param then None else spx_login_handover ings fallback reqhost reqpath param.
